@@ -1,9 +1,298 @@
-(* C13 — Alert ingestion: defaults, merge and visibility follow the API contract. *)
+(* C13 — Alert ingestion: defaults, merge and visibility follow the API contract.
+   Only statements here; every proof is `exact <lemma from Proofs/ProviderProofs.v>`.
+
+   Reading guide.
+   - [post vn vv now rt s batch] is POST /api/v2/alerts received at instant [now] with resolve_timeout [rt] on store [s]
+     (postAlertsHandler + mem.Alerts.Put); [gc now s] one run of mem.Alerts.gc; [get route status now s] GET /api/v2/alerts.
+   - [prep now rt p] is the submitted alert [p] after the handler's defaulting and removeEmptyLabels;
+     [valid_p vn vv now rt p] says it passes Alert.Validate ([vn]/[vv] = the label-name / label-value validity
+     predicates of the running mode — arbitrary here, instantiated by the real functions in the correspondence run).
+   - [put_opt now cur a] is what provider Put stores for a label set that held [cur] when [a] arrives.
+   - [reachable E now s]: [s] is the store after ANY history of POST / gc / GET operations on an empty store under a
+     positive, non-decreasing clock that has not passed [now]. Theorems stated for reachable states therefore hold
+     after every submission history (the induction over the history is [c13_reachable_invariant]).
+   - The zero time.Time is 0; "missing startsAt/endsAt" is [p_starts p = 0] / [p_ends p = 0]. *)
 From AM Require Import Base.Prelude Model.Provider Proofs.ProviderProofs.
 
-Theorem c13_gc_exact (now : Z) (s : store) (k : list (string * string)) :
+Local Notation key := (list (string * string)) (only parsing).
+
+(* ---------------------------------------------------------------------------------------------- *)
+(* 0. The induction over histories: every API history keeps every stored alert under its own label set, with real
+      start <= end and UpdatedAt not after the clock. *)
+Theorem c13_reachable_invariant (E : env) (h : list (Z * op)) (t0 : Z) :
+  0 < t0 -> 0 <= e_rt E -> api_hist h -> mono_from t0 h ->
+  inv (last_time t0 h) (run_state E ∅ h).
+Proof. intros H0 Hrt A M. exact (run_inv E h ∅ t0 H0 Hrt A M (inv_empty t0)). Qed.
+
+(* ... and the store stays keyed by label set under every history, direct provider Puts included *)
+Theorem c13_store_keyed_by_label_set (E : env) (h : list (Z * op)) : keyed (run_state E ∅ h).
+Proof. exact (run_keyed E h ∅ keyed_empty). Qed.
+
+(* ---------------------------------------------------------------------------------------------- *)
+(* 1. Every valid alert of a batch is stored even if other alerts of the batch are rejected. *)
+
+(* the stored set (and what subscribers receive) after a POST equals that after POSTing only its valid alerts; the
+   response is 400 exactly when some alert is invalid and 200 otherwise (never 500 with the in-memory provider) *)
+Theorem c13_valid_stored_despite_invalid (vn vv : string -> bool) (now rt : Z) (s : store) (batch : list palert) :
+  let vb := List.filter (valid_p vn vv now rt) batch in
+  fst (post vn vv now rt s batch) = fst (post vn vv now rt s vb) /\
+  snd (snd (post vn vv now rt s batch)) = snd (snd (post vn vv now rt s vb)) /\
+  fst (snd (post vn vv now rt s batch)) = (if forallb (valid_p vn vv now rt) batch then 200 else 400) /\
+  fst (snd (post vn vv now rt s vb)) = 200.
+Proof. exact (post_valid_only vn vv now rt s batch). Qed.
+
+(* over whole histories: dropping the invalid alerts from every batch changes no state and no output except the
+   response class *)
+Theorem c13_valid_stored_despite_invalid_hist (E : env) (h : list (Z * op)) (s : store) :
+  fst (run E s (map (only_valid E) h)) = fst (run E s h) /\
+  map strip_code (snd (run E s (map (only_valid E) h))) = map strip_code (snd (run E s h)).
+Proof. exact (run_only_valid E h s). Qed.
+
+Theorem c13_every_valid_alert_stored (vn vv : string -> bool) (now rt : Z) (s : store) (batch : list palert) (p : palert) :
+  keyed s -> In p batch -> valid_p vn vv now rt p = true ->
+  is_Some (fst (post vn vv now rt s batch) !! a_labels (prep now rt p)).
+Proof. exact (post_valid_stored vn vv now rt s batch p). Qed.
+
+(* label sets for which the batch carries no valid alert are left exactly as they were (nothing invalid is stored) *)
+Theorem c13_invalid_alerts_change_nothing (vn vv : string -> bool) (now rt : Z) (s : store) (batch : list palert) (k : key) :
+  keyed s ->
+  (forall p, In p batch -> valid_p vn vv now rt p = true -> a_labels (prep now rt p) <> k) ->
+  fst (post vn vv now rt s batch) !! k = s !! k.
+Proof. exact (post_untouched vn vv now rt s batch k). Qed.
+
+(* what a POST stores for a label set: the provider's overlap/merge rule applied to the batch's LAST valid alert of
+   that label set, over an alert (or nothing) that satisfies the store invariant *)
+Theorem c13_post_stores_merge_of_last (E : env) (now : Z) (s : store) (b1 : list palert) (p : palert) (b2 : list palert) :
+  0 <= e_rt E -> reachable E now s -> valid_p (e_vname E) (e_vvalue E) now (e_rt E) p = true ->
+  (forall q, In q b2 -> valid_p (e_vname E) (e_vvalue E) now (e_rt E) q = true ->
+             a_labels (prep now (e_rt E) q) <> a_labels (prep now (e_rt E) p)) ->
+  exists cur,
+    (forall old, cur = Some old -> alert_inv now (a_labels (prep now (e_rt E) p)) old) /\
+    (cur = None -> s !! a_labels (prep now (e_rt E) p) = None) /\
+    fst (post (e_vname E) (e_vvalue E) now (e_rt E) s (b1 ++ p :: b2)) !! a_labels (prep now (e_rt E) p)
+    = Some (put_opt now cur (prep now (e_rt E) p)).
+Proof. intros Hrt. exact (reachable_post_last E Hrt now s b1 p b2). Qed.
+
+(* ---------------------------------------------------------------------------------------------- *)
+(* 2. Defaults. *)
+
+(* a missing startsAt becomes the receive time — or the given endsAt when only that is present *)
+Theorem c13_start_default (now rt : Z) (p : palert) :
+  a_starts (prep now rt p) =
+  if p_starts p =? 0 then (if p_ends p =? 0 then now else p_ends p) else p_starts p.
+Proof. reflexivity. Qed.
+
+(* a missing endsAt becomes receive time + resolve_timeout and marks the alert as timeout-driven; UpdatedAt is the
+   receive time; empty-valued labels are dropped *)
+Theorem c13_end_default (now rt : Z) (p : palert) :
+  a_ends (prep now rt p) = (if p_ends p =? 0 then now + rt else p_ends p) /\
+  a_timeout (prep now rt p) = (p_ends p =? 0) /\
+  a_updated (prep now rt p) = now /\
+  a_labels (prep now rt p) = remove_empty (p_labels p).
+Proof. repeat split; reflexivity. Qed.
+
+(* a label set not stored before is stored exactly as defaulted *)
+Theorem c13_fresh_alert_stored_as_defaulted (now : Z) (a : alert) : put_opt now None a = a.
+Proof. reflexivity. Qed.
+
+(* ... and pushed forward by every re-send: after any history, a valid submission without endsAt leaves its label
+   set with end >= now + resolve_timeout, UpdatedAt = now, Timeout set; the end is exactly now + resolve_timeout
+   when the label set was new or timeout-driven, and otherwise the only alternative is a later explicit end that
+   was already stored *)
+Theorem c13_end_default_and_pushed (E : env) (now : Z) (s : store) (b1 : list palert) (p : palert) (b2 : list palert) :
+  0 <= e_rt E -> reachable E now s ->
+  valid_p (e_vname E) (e_vvalue E) now (e_rt E) p = true -> p_ends p = 0 ->
+  (forall q, In q b2 -> valid_p (e_vname E) (e_vvalue E) now (e_rt E) q = true ->
+             a_labels (prep now (e_rt E) q) <> a_labels (prep now (e_rt E) p)) ->
+  exists cur r,
+    fst (post (e_vname E) (e_vvalue E) now (e_rt E) s (b1 ++ p :: b2)) !! a_labels (prep now (e_rt E) p) = Some r /\
+    r = put_opt now cur (prep now (e_rt E) p) /\
+    (cur = None -> s !! a_labels (prep now (e_rt E) p) = None) /\
+    now + e_rt E <= a_ends r /\ a_updated r = now /\ a_timeout r = true /\
+    (cur = None -> a_ends r = now + e_rt E) /\
+    (forall old, cur = Some old -> a_timeout old = true -> a_ends r = now + e_rt E) /\
+    (forall old, cur = Some old ->
+       a_ends r = now + e_rt E \/ (a_ends r = a_ends old /\ a_timeout old = false /\ now + e_rt E < a_ends old)).
+Proof. intros Hrt. exact (reachable_resend_pushes_end E Hrt now s b1 p b2). Qed.
+
+(* ---------------------------------------------------------------------------------------------- *)
+(* 3. Overlapping submissions of the same label set keep the earliest start. *)
+
+(* the exact overlap condition of provider Put: the submitted end or the submitted start lies strictly inside the
+   stored activity interval *)
+Theorem c13_overlap_condition (old new : alert) :
+  overlaps old new = true <->
+  (a_starts old < a_ends new < a_ends old) \/ (a_starts old < a_starts new < a_ends old).
+Proof. exact (overlaps_spec old new). Qed.
+
+(* whenever the submitted alert starts before the stored one ends — in particular whenever the two activity
+   intervals intersect — the stored start becomes the minimum of the two (case split: a later start inside the
+   stored interval forces the merge branch; an earlier or equal start is the minimum on either branch).
+   No assumption on UpdatedAt order or on the instant. *)
+Theorem c13_overlap_keeps_earliest_start (now : Z) (old new : alert) :
+  a_starts new < a_ends old ->
+  a_starts (put_opt now (Some old) new) = Z.min (a_starts old) (a_starts new).
+Proof. exact (put_opt_earliest_start now old new). Qed.
+
+(* the stored start is never later than the submitted one *)
+Theorem c13_start_never_later_than_submitted (now : Z) (cur : option alert) (a : alert) :
+  a_starts (put_opt now cur a) <= a_starts a.
+Proof. exact (put_opt_start_le now cur a). Qed.
+
+(* disjoint submissions replace the stored alert: a re-fired alert (submitted at or after the stored end, touching
+   included) gets its own start and end; so does one lying entirely before the stored interval (e_new = s_old
+   included) *)
+Theorem c13_refire_after_end_restarts (now : Z) (old new : alert) :
+  a_starts old <= a_ends old -> a_starts new <= a_ends new -> a_ends old <= a_starts new ->
+  put_opt now (Some old) new = new.
+Proof. exact (put_opt_disjoint_after now old new). Qed.
+
+Theorem c13_disjoint_before_replaces (now : Z) (old new : alert) :
+  a_starts new <= a_ends new -> a_ends new <= a_starts old ->
+  put_opt now (Some old) new = new.
+Proof. exact (put_opt_disjoint_before now old new). Qed.
+
+(* the stored end is always the submitted end or the previously stored end; annotations, generatorURL, UpdatedAt
+   and the Timeout flag are those of the latest submission *)
+Theorem c13_end_is_submitted_or_stored (now : Z) (old new : alert) :
+  a_ends (put_opt now (Some old) new) = a_ends new \/
+  (a_ends (put_opt now (Some old) new) = a_ends old /\ overlaps old new = true).
+Proof. exact (put_opt_end_cases now old new). Qed.
+
+Theorem c13_latest_submission_wins_metadata (now : Z) (cur : option alert) (a : alert) :
+  (forall old, cur = Some old -> a_updated old <= a_updated a) ->
+  let r := put_opt now cur a in
+  a_annots r = a_annots a /\ a_gen r = a_gen a /\ a_updated r = a_updated a /\ a_timeout r = a_timeout a.
+Proof. exact (put_opt_latest now cur a). Qed.
+
+(* ---------------------------------------------------------------------------------------------- *)
+(* 4. An explicit end in the past resolves the alert immediately: after any history, it is stored resolved (end
+      between the submitted end and now), no GET at a later instant lists it, and every gc run from now on deletes
+      it and reports it to the callbacks. *)
+Theorem c13_past_end_resolves_now (E : env) (now : Z) (s : store) (b1 : list palert) (p : palert) (b2 : list palert) :
+  0 <= e_rt E -> reachable E now s ->
+  valid_p (e_vname E) (e_vvalue E) now (e_rt E) p = true -> p_ends p <> 0 -> p_ends p <= now ->
+  (forall q, In q b2 -> valid_p (e_vname E) (e_vvalue E) now (e_rt E) q = true ->
+             a_labels (prep now (e_rt E) q) <> a_labels (prep now (e_rt E) p)) ->
+  let s' := fst (post (e_vname E) (e_vvalue E) now (e_rt E) s (b1 ++ p :: b2)) in
+  exists r,
+    s' !! a_labels (prep now (e_rt E) p) = Some r /\ resolved_at now r = true /\ p_ends p <= a_ends r <= now /\
+    (forall now', now < now' -> ~ In (to_g (e_route E) (e_status E) r) (get (e_route E) (e_status E) now' s')) /\
+    (forall now', now <= now' -> fst (gc now' s') !! a_labels (prep now (e_rt E) p) = None /\ In r (snd (gc now' s'))).
+Proof. intros Hrt. exact (reachable_past_end_resolves E Hrt now s b1 p b2). Qed.
+
+(* ---------------------------------------------------------------------------------------------- *)
+(* 5. GET returns exactly the alerts whose end time has not passed (EndsAt >= now), with the stored = merged times,
+      each label set once. *)
+Theorem c13_get_exact (E : env) (now : Z) (s : store) (g : galert) :
+  0 <= e_rt E -> reachable E now s ->
+  (In g (get (e_route E) (e_status E) now s) <->
+   exists k a, s !! k = Some a /\ now <= a_ends a /\ g = to_g (e_route E) (e_status E) a).
+Proof. intros Hrt. exact (reachable_get_exact E Hrt now s g). Qed.
+
+Theorem c13_get_lists_each_label_set_once (route : lset -> list string) (status : lset -> string) (now : Z) (s : store) :
+  keyed s -> NoDup (map g_labels (get route status now s)).
+Proof. exact (get_nodup route status now s). Qed.
+
+(* ---------------------------------------------------------------------------------------------- *)
+(* 6. Only resolved alerts are ever garbage collected. *)
+
+(* gc deletes exactly the stored alerts with Resolved() and keeps every other alert unchanged *)
+Theorem c13_gc_exact (now : Z) (s : store) (k : key) :
   fst (gc now s) !! k =
   match s !! k with Some a => if resolved_at now a then None else Some a | None => None end.
 Proof. exact (gc_lookup now s k). Qed.
 
-Print Assumptions c13_gc_exact.
+(* after any history "resolved" is 0 < EndsAt <= now, i.e. the end has been reached *)
+Theorem c13_gc_removes_exactly_ended (E : env) (now : Z) (s : store) (k : key) :
+  0 <= e_rt E -> reachable E now s ->
+  fst (gc now s) !! k = match s !! k with Some a => if a_ends a <=? now then None else Some a | None => None end.
+Proof. intros Hrt. exact (reachable_gc_exact E Hrt now s k). Qed.
+
+(* the callbacks (PostDelete per alert, PostGC with the fingerprints) get exactly the deleted alerts, once each *)
+Theorem c13_gc_callbacks_exact (now : Z) (s : store) (a : alert) :
+  In a (snd (gc now s)) <-> exists k, s !! k = Some a /\ resolved_at now a = true.
+Proof. exact (gc_deleted now s a). Qed.
+
+Theorem c13_gc_callbacks_once (now : Z) (s : store) : keyed s -> NoDup (map a_labels (snd (gc now s))).
+Proof. exact (gc_deleted_nodup now s). Qed.
+
+(* no operation other than gc ever removes a stored label set (POST, direct Put, GET, dump), and gc removes only
+   resolved alerts and leaves the others unchanged *)
+Theorem c13_only_resolved_alerts_collected (E : env) (s : store) (now : Z) (o : op) (k : key) (a : alert) :
+  keyed s -> s !! k = Some a ->
+  match fst (step E s now o) !! k with
+  | Some a' => o = OGC -> a' = a /\ resolved_at now a = false
+  | None => o = OGC /\ resolved_at now a = true
+  end.
+Proof. exact (step_only_gc_removes E s now o k a). Qed.
+
+(* ---------------------------------------------------------------------------------------------- *)
+(* Non-vacuity: concrete histories meeting the hypotheses and showing each clause at work. *)
+
+Definition ex_names (s : string) : bool := negb (String.eqb s "") && negb (String.eqb s "a-b").
+Definition ex_env : env := mkEnv ex_names (fun _ => true) 300 (fun _ => ["default"]) (fun _ => "active").
+Definition ex_A : list (string * string) := [("alertname", "A")].
+Definition ex_p (ls : list (string * string)) (s e : Z) : palert := mkP ls [] s e "".
+
+(* a mixed batch: the invalid alert (bad name) is reported (400), the valid one — with an empty-valued label that
+   is dropped and both times defaulted — is stored *)
+Example c13_ex_mixed_batch :
+  let '(s, outs) := run ex_env ∅ [(1000, OPost [ex_p [("a-b", "x")] 0 0; ex_p [("alertname", "A"); ("job", "")] 0 0]); (1000, OGet)] in
+  outs = [RPost 400 [mkAlert ex_A [] 1000 1300 "" 1000 true];
+          RGet [mkG ex_A [] 1000 1300 "" 1000 ["default"] "active"]] /\
+  map_to_list s = [(ex_A, mkAlert ex_A [] 1000 1300 "" 1000 true)].
+Proof. vm_compute. split; reflexivity. Qed.
+
+(* re-sends push the end forward and keep the earliest start; an explicit end in the past resolves at once; GET
+   hides the alert once its end has passed; gc deletes it and reports it; a re-fire after that starts afresh *)
+Definition ex_hist : list (Z * op) :=
+  [(1000, OPost [ex_p ex_A 0 0]);          (* fires at 1000, end 1300 *)
+   (1200, OPost [ex_p ex_A 0 0]);          (* re-send: end pushed to 1500, start stays 1000 *)
+   (1250, OPost [ex_p ex_A 1100 1240]);    (* explicit end in the past: resolved immediately *)
+   (1250, OGet); (1251, OGet);
+   (1260, OGC);
+   (1300, OPost [ex_p ex_A 0 0])].         (* re-fired: new start *)
+Example c13_ex_lifecycle :
+  snd (run ex_env ∅ ex_hist) =
+  [RPost 200 [mkAlert ex_A [] 1000 1300 "" 1000 true];
+   RPost 200 [mkAlert ex_A [] 1000 1500 "" 1200 true];
+   RPost 200 [mkAlert ex_A [] 1000 1240 "" 1250 false];
+   RGet []; RGet [];
+   RGC [mkAlert ex_A [] 1000 1240 "" 1250 false];
+   RPost 200 [mkAlert ex_A [] 1300 1600 "" 1300 true]].
+Proof. vm_compute. reflexivity. Qed.
+
+(* the history above is an API history with a monotone positive clock, so its states are [reachable] *)
+Example c13_ex_reachable : reachable ex_env 1300 (run_state ex_env ∅ ex_hist).
+Proof.
+  exists ex_hist, 1000. split; [reflexivity|]. split; [repeat constructor|]. split; [|split; [|reflexivity]].
+  - simpl. repeat split; discriminate.
+  - vm_compute. discriminate.
+Qed.
+
+(* GET shows an alert at the very instant of its end (EndsAt >= now) and not one nanosecond later; gc at the instant
+   of the end already deletes it *)
+Example c13_ex_boundaries :
+  snd (run ex_env ∅ [(1000, OPost [ex_p ex_A 900 1100]); (1100, OGet); (1101, OGet); (1099, OGC); (1100, OGC)]) =
+  [RPost 200 [mkAlert ex_A [] 900 1100 "" 1000 false];
+   RGet [mkG ex_A [] 900 1100 "" 1000 ["default"] "active"]; RGet [];
+   RGC []; RGC [mkAlert ex_A [] 900 1100 "" 1000 false]].
+Proof. vm_compute. reflexivity. Qed.
+
+(* the overlap hypothesis of c13_overlap_keeps_earliest_start is met on both branches: a later start inside the
+   stored interval (merge), and an earlier start spanning it (replace) *)
+Example c13_ex_earliest_start :
+  let old := mkAlert ex_A [] 1000 1300 "" 1000 true in
+  a_starts (put_opt 1100 (Some old) (mkAlert ex_A [] 1100 1400 "" 1100 true)) = 1000 /\
+  overlaps old (mkAlert ex_A [] 1100 1400 "" 1100 true) = true /\
+  a_starts (put_opt 1100 (Some old) (mkAlert ex_A [] 900 1400 "" 1100 true)) = 900 /\
+  overlaps old (mkAlert ex_A [] 900 1400 "" 1100 true) = false.
+Proof. vm_compute. repeat split; reflexivity. Qed.
+
+Print Assumptions c13_reachable_invariant.
+Print Assumptions c13_valid_stored_despite_invalid_hist.
+Print Assumptions c13_end_default_and_pushed.
+Print Assumptions c13_past_end_resolves_now.
+Print Assumptions c13_get_exact.
+Print Assumptions c13_only_resolved_alerts_collected.
